@@ -671,8 +671,10 @@ func (b *pickfirstBalancer) updateSubConnState(sd *scData, newState balancer.Sub
 		case connectivity.Connecting:
 			// The effective state can be in either IDLE, CONNECTING or
 			// TRANSIENT_FAILURE. If it's  TRANSIENT_FAILURE, stay in
-			// TRANSIENT_FAILURE until it's READY. See A62.
-			if sd.effectiveState != connectivity.TransientFailure {
+			// TRANSIENT_FAILURE until it's READY. See A62. The same holds when
+			// the balancer itself is in TRANSIENT_FAILURE and this SubConn was
+			// only just created for an address added by a resolver update.
+			if sd.effectiveState != connectivity.TransientFailure && b.state != connectivity.TransientFailure {
 				sd.effectiveState = connectivity.Connecting
 				b.updateBalancerState(balancer.State{
 					ConnectivityState: connectivity.Connecting,
